@@ -726,12 +726,17 @@ def combine_chunk_results_for_factorized_key(
         combined_count = counts[0]
 
     for chunk, count in zip(chunks[1:], counts[1:]):
-        combined = reduce_array_pair(
+        merged = reduce_array_pair(
             combined,
             chunk,
             getattr(ScalarFuncs, reduce_func_name),
             combined_count if isinstance(combined_count, np.ndarray) else None,
         )
+        if isinstance(combined_count, np.ndarray):
+            # a block that saw no value of a group contributes nothing, whatever its
+            # initial value is (dtypes without a null sentinel: bool, unsigned, small ints)
+            merged = np.where(count > 0, merged, combined)
+        combined = merged
         combined_count = combined_count + count
 
     return combined, combined_count
